@@ -227,6 +227,19 @@ class C19(Check):
                     if abs(t - k * step) > 1e-3:
                         viol.append({"clause": "imported-time-differs", "key": "time", "detail": f"agent {a} at step {k}: agent time {t!r} after import, epoch is {k * step}"})
                         break
+                    if a in sn.get("sensor_lla", {}):
+                        # what the sensor reports as its Earth-fixed location belongs to the imported state at this epoch
+                        from resonaate.physics.transforms.methods import ecef2lla, eci2ecef
+
+                        want = ecef2lla(eci2ecef(np.asarray(cur, dtype=float), S + __import__("datetime").timedelta(seconds=k * step)))
+                        got = np.asarray(sn["sensor_lla"][a], dtype=float)
+                        dlon = abs((got[1] - want[1] + np.pi) % (2 * np.pi) - np.pi)
+                        # (the agent's epoch comes back from a Julian date: up to ~4e-5 s, i.e. 3e-9 rad of Earth rotation)
+                        if abs(got[0] - want[0]) > 1e-7 or dlon > 1e-7 or abs(got[2] - want[2]) > 1e-4:
+                            viol.append({"clause": "imported-sensor-location-stale", "key": "lla",
+                                         "detail": f"sensor {a} at step {k}: reports latitude/longitude/altitude {got.tolist()} but its imported state at this epoch is at {want.tolist()}"})
+                            break
+                        cnt["imported_sensor_locations_compared"] = cnt.get("imported_sensor_locations_compared", 0) + 1
             cnt["imported_states_compared"] = cnt.get("imported_states_compared", 0) + n_cmp
             # imported observations reach the filter of their target at their epoch
             n_obs_cmp = 0
